@@ -96,13 +96,15 @@ def check(run: Run) -> None:
     if vc is None:
         raise AnalysisError("anchor vanished: type_transformer.visit_Call")
     fvc = ctx.analysis(vc)
-    pcs = [c for c in calls_in(vc) if isinstance(c.func, ast.Attribute) and c.func.attr == "process_parameterized_method_call"]
+    from ..lib import call_events
+
+    pcs = [e for e in call_events(ctx, vc, lambda nm: nm == "process_parameterized_method_call") if len(e.args) >= 2]
     run.floor("C10.R3", len(pcs), 1, "parameterized-call sites")
-    for c in pcs:
-        fx = Facts(fvc, c)
-        tyt = strip_sites(fvc.term_of(c.args[1]))
-        ok = any(isinstance(a, ast.Compare) and len(a.ops) == 1 and strip_sites(fvc.term_of(a.left)) == tyt and strip_sites(fvc.term_of(a.comparators[0])) == ("global", "typing.Any") and ((isinstance(a.ops[0], (ast.IsNot, ast.NotEq)) and pol) or (isinstance(a.ops[0], (ast.Is, ast.Eq)) and not pol)) for a, pol in fx.atoms)
-        run.check(ok, "C10.R3", vc, stmt_of(c), "property lookup skipped when the object's type is Any", "obj.attr[params](args) on an object of unknown type reaches getattr(<type>, attr) with type Any: AttributeError instead of passing the call through (a test 'is not None' on lookup_type's result is vacuous - it never returns None)", "if found_type is not Any")
+    for e in pcs:
+        fx = e.facts(ctx)
+        tyt = e.args[1]
+        ok = any(isinstance(a, ast.Compare) and len(a.ops) == 1 and fx._term(a.left) == tyt and fx._term(a.comparators[0]) == ("global", "typing.Any") and ((isinstance(a.ops[0], (ast.IsNot, ast.NotEq)) and pol) or (isinstance(a.ops[0], (ast.Is, ast.Eq)) and not pol)) for a, pol in fx.atoms)
+        run.check(ok, "C10.R3", vc, stmt_of(e.call) if e.owner is vc else vc.node, "property lookup skipped when the object's type is Any", "obj.attr[params](args) on an object of unknown type reaches getattr(<type>, attr) with type Any: AttributeError instead of passing the call through (a test 'is not None' on lookup_type's result is vacuous - it never returns None)", "if found_type is not Any")
     vd = tt.methods.get("visit_Dict")
     if vd is None:
         raise AnalysisError("anchor vanished: type_transformer.visit_Dict")
